@@ -73,9 +73,13 @@ func runC08(c *engine.Ctx) {
 					}
 				}
 				// zero-length bodies: the digest and framing rules apply to them too
-				if target == "object" {
+				{
+					efr := []string{"plain", "chunked", "chunked-dec+1"}
+					if target == "part" {
+						efr = []string{"plain"}
+					}
 					for _, m := range []string{"absent", "correct", "wrong", "not-base64", "short15", "long17", "empty"} {
-						for _, fr := range []string{"plain", "chunked", "chunked-dec+1"} {
+						for _, fr := range efr {
 							for _, integ := range []bool{true, false} {
 								cases = append(cases, c08Case{kind: k, target: target, start: st, md5: m, declLen: "exact", framing: fr, integrity: integ, faultAt: -1, empty: true})
 							}
